@@ -109,6 +109,7 @@ var pureCallees = map[string]bool{
 	"bytes.NewBuffer": true, "bytes.NewReader": true, "time.Now": true, "(time.Time).Add": true, "(time.Time).After": true,
 	"(time.Time).Sub": true, "(time.Time).Unix": true, "os.IsNotExist": true, "path.Join": true,
 	"strings.TrimSuffix": true, "strings.ToUpper": true, "net.SplitHostPort": true,
+	"golang.org/x/crypto/hkdf.Extract": true,
 }
 
 func (p *Prog) indexCallWrites(fn *ssa.Function, ci ssa.CallInstruction) {
